@@ -44,6 +44,21 @@ func reverseStatements(statements []unexpandedProcessOrFunction) []unexpandedPro
 	return statements
 }
 
+// Lists of names and of branch types are collected back to front as well
+func reverseNames(names []process.Name) []process.Name {
+	for i, j := 0, len(names)-1; i < j; i, j = i+1, j-1 {
+		names[i], names[j] = names[j], names[i]
+	}
+	return names
+}
+
+func reverseOptions(options []types.OptionInitial) []types.OptionInitial {
+	for i, j := 0, len(options)-1; i < j; i, j = i+1, j-1 {
+		options[i], options[j] = options[j], options[i]
+	}
+	return options
+}
+
 // Process that is currently being parsed and yet to become a process.Process
 type incompleteProcess struct {
 	Body      process.Form
